@@ -195,7 +195,19 @@ func runC07(r *run) {
 				}
 				nCtxKeys++
 			}
-			cur.SetContextKeys(keys...)
+			// the keys may be registered in two steps, with records emitted before and in between: a
+			// key registered after the logger's first record counts like any other
+			if g.chance(1, 3) {
+				cur.InfoContext(ctx, "warm-up before any key is registered")
+			}
+			if len(keys) >= 2 && g.chance(1, 2) {
+				cur.SetContextKeys(keys[:1]...)
+				cur.InfoContext(ctx, "warm-up between two registrations")
+				cur.SetContextKeys(keys[1:]...)
+			} else {
+				cur.SetContextKeys(keys...)
+			}
+			rec.take()
 			// what the context holds for the registered keys, in registration order (the later
 			// WithValue for an equal key shadows the earlier)
 			for _, k := range keys {
